@@ -199,6 +199,8 @@ def run(prop, tier="quick", seed=0, jobs=16):
         if name.startswith("lemma:") or name.startswith("static:") or name.startswith("step:") or name.startswith("roundtrip:") or name not in reg.contracts:
             continue
         c = reg.contracts[name]
+        if getattr(c, "no_native", False):
+            continue
         if c.status == "assumed":
             native_jobs.append((name, seed, n_native, []))
             continue
